@@ -10,11 +10,12 @@ import (
 )
 
 func newG(v *sym.V, cls sym.Class) *gen.G {
-	return &gen.G{V: v, Cls: cls, ClsSafe: cls, ClsUnsafe: cls, Min: 1, Max: v.Param("maxlen", 2), Budget: v.Param("nsym", 2)}
+	return &gen.G{V: v, Cls: cls, ClsSafe: cls, ClsUnsafe: cls, Min: 1, Max: v.Param("maxlen", 2), Budget: v.Param("nsym", 2), Pad: v.Param("pad", 0), Slim: v.Param("reps", 0) > 0}
 }
 
 // build draws an error according to the tier parameters:
 //
+//	(with reps > 0 the last branch of a multi-cause leaf is drawn from two kinds only)
 //	D     maximal number of layers
 //	reps  1 = leaves and inner wrappers from the representative sets (one kind
 //	      per behaviour class), outermost wrapper from the full set;
@@ -22,6 +23,7 @@ func newG(v *sym.V, cls sym.Class) *gen.G {
 func build(v *sym.V, g *gen.G, name string) *gen.B {
 	d := v.Param("D", 2)
 	if v.Param("reps", 0) == 1 {
+		g.Slim = true
 		return g.BuildTiered(name, d, gen.RepLeaves, gen.RepWrappers, gen.AllWrappers)
 	}
 	if v.Param("reps", 0) == 2 {
